@@ -13,6 +13,12 @@ solution of an exact rational linear system.  The outputs that are affine in all
 declared as such to GEMSEO (``io.set_linear_relationships``), which makes the formulations replace
 the corresponding functions by :class:`.MDOLinearFunction` objects built from a value and a
 Jacobian at zero (the ``is_linear`` branch of the formulations).
+
+``jac_storage`` selects how the discipline hands its Jacobian blocks over: ``"dense"`` NumPy arrays, or
+SciPy sparse arrays (``"csr"``: ``csr_array``, ``"csc"``: ``csc_array``, ``"coo"``: ``coo_matrix``) **built from the values** of the block, so that exact
+zeros are not stored: a block that vanishes at the current point is then an empty sparse array
+(``nnz == 0``), a block that does not is a sparse array with stored entries.  ``"mixed"`` alternates the
+storage block by block (dense, csr, csc, coo in the order the blocks are filled).
 """
 
 from __future__ import annotations
@@ -22,8 +28,15 @@ from typing import TYPE_CHECKING
 from numpy import array
 from numpy import atleast_1d
 from numpy import zeros
+from scipy.sparse import coo_matrix
+from scipy.sparse import csc_array
+from scipy.sparse import csr_array
 
 from gemseo.core.discipline.discipline import Discipline
+
+# (``coo_array`` is not generated: it cannot be indexed, and GEMSEO reads the first row of a sparse block by indexing)
+SPARSE_BUILDERS = {"csr": csr_array, "csc": csc_array, "coo": coo_matrix}
+MIXED_ORDER = ("dense", "csr", "csc", "coo")
 
 if TYPE_CHECKING:
     from collections.abc import Mapping
@@ -42,6 +55,7 @@ class QDisc(Discipline):
         outs: Mapping[str, Mapping[str, object]],
         declare_linear: Sequence[str] = (),
         defaults: Mapping[str, Sequence[float]] | None = None,
+        jac_storage: str = "dense",
     ) -> None:
         """
         Args:
@@ -50,8 +64,13 @@ class QDisc(Discipline):
                 "quad": {input: matrix}}``.
             declare_linear: The names of the outputs declared as linear in all the inputs.
             defaults: The default values of the inputs (zero when missing).
+            jac_storage: The storage of the Jacobian blocks
+                (``"dense"``, ``"csr"``, ``"csc"``, ``"coo"`` or ``"mixed"``).
         """  # noqa: D205 D212 D415
         super().__init__(name=name)
+        self.jac_storage = jac_storage
+        self.n_empty_sparse_blocks = 0
+        self.n_sparse_blocks = 0
         self.in_sizes = dict(in_sizes)
         self.io.input_grammar.update_from_names(list(in_sizes))
         self.io.output_grammar.update_from_names(list(outs))
@@ -93,6 +112,7 @@ class QDisc(Discipline):
         self.n_lin += 1
         self._init_jacobian(input_names, output_names)
         data = self.io.data
+        n_block = 0
         for o, (const, lin, quad) in self.outs.items():
             if o not in self.jac:
                 continue
@@ -103,4 +123,12 @@ class QDisc(Discipline):
                 if i in quad:
                     t = atleast_1d(data[i]).astype(float)
                     j = j + 2.0 * quad[i] * t[None, :]
+                storage = self.jac_storage
+                if storage == "mixed":
+                    storage = MIXED_ORDER[n_block % len(MIXED_ORDER)]
+                n_block += 1
+                if storage != "dense":
+                    j = SPARSE_BUILDERS[storage](j)
+                    self.n_sparse_blocks += 1
+                    self.n_empty_sparse_blocks += int(j.nnz == 0)
                 self.jac[o][i] = j
